@@ -16,7 +16,12 @@
  * operation, driver kind, count and auxiliary-buffer geometry of the tier;
  * then 40-octet transfers under every periodic script (the structured
  * stand-in for "random long transfers"); then the library's own buffer,
- * chunk-list and trivial endpoints over every cut of short streams.
+ * chunk-list and trivial endpoints over every cut of short streams into up to
+ * 4 (5) chunks -- empty chunks at every position -- with 0..2 chunks of foreign
+ * unread octets in front of the list's `active` index and with or without a
+ * consumed octet in front of every chunk's read offset.
+ * (Counts and driver answers >= 2^31 are c17_huge.c's, the scratch-region
+ * (getbuffer) path is c17_getbuffer.c's.)
  *
  * The oracle is a checker over what the drivers observed (octets handed out
  * by the source, octets that reached the sink / the destination, answers
@@ -1358,37 +1363,74 @@ wrap_sink(void *driver, const void *data, size_t n)
 }
 
 /* source_from_chunks over the stream cut into parts p[0..np) (np == 1 also
- * runs source_from_buffer); sink_to_buffer with room for cap octets */
+ * runs source_from_buffer); sink_to_buffer with room for cap octets.
+ *
+ * `inactive` chunks in front of the list's `active` index hold unread octets
+ * that are not part of the list's stream (ByteChunks.active is where the list
+ * starts: flenp_chunks_use / flenp_chunks_to_sink frame from there, and so
+ * does the reader); with `lead` every chunk of the stream has one octet in
+ * front of its read offset that was consumed before. */
+#define REAL_MAXPARTS 5
+#define REAL_MAXINACTIVE 2
 static void
-real_case(int cop, const size_t *p, int np, size_t n, size_t cap, bool plain_buffer)
+real_case(int cop, const size_t *p, int np, size_t n, size_t cap, bool plain_buffer, int inactive, int lead, int prefill)
 {
     size_t L = 0;
     for (int i = 0; i < np; ++i)
         L += p[i];
-    if (!mc_case("real op=%s source=%s parts=[%zu,%zu,%zu]/%d n=%zu sink=buffer(%zu)", COPNAME[cop],
-                 plain_buffer ? "buffer" : "chunks", p[0], np > 1 ? p[1] : 0, np > 2 ? p[2] : 0, np, n, cap))
+    if (!mc_would_run()) {
+        mc_skip_case();
         return;
-    unsigned char *mem[3] = { NULL, NULL, NULL };
-    ByteBuffer part[3];
+    }
+    char pd[64];
+    size_t pl = 0;
+    pd[0] = 0;
+    for (int i = 0; i < np; ++i)
+        pl += (size_t)snprintf(pd + pl, sizeof pd - pl, "%s%zu", i ? "," : "", p[i]);
+    if (!mc_case("real op=%s source=%s parts=[%s]/%d inactive-chunks=%d lead=%d n=%zu sink=buffer(%zu%s)", COPNAME[cop],
+                 plain_buffer ? "buffer" : "chunks", pd, np, inactive, lead, n, cap, prefill ? " free, 2 octets in it" : ""))
+        return;
+    const int nch = inactive + np;
+    unsigned char *mem[REAL_MAXPARTS + REAL_MAXINACTIVE] = { NULL };
+    ByteBuffer list[REAL_MAXPARTS + REAL_MAXINACTIVE];
+    ByteBuffer *part = list + inactive;
+    for (int i = 0; i < inactive; ++i) {
+        /* chunk i in front of `active`: one consumed octet, i + 1 unread ones */
+        const size_t sz = (size_t)i + 2u;
+        mem[i] = mc_exact(sz);
+        for (size_t k = 0; k < sz; ++k)
+            mem[i][k] = (unsigned char)(0xa0u + 16u * (unsigned)i + k);
+        list[i].data = mem[i];
+        list[i].size = list[i].used = sz;
+        list[i].offset = 1;
+    }
     size_t at = 0;
     for (int i = 0; i < np; ++i) {
-        mem[i] = mc_exact(p[i]);
+        unsigned char *m = mc_exact(p[i] + (size_t)lead);
+        mem[inactive + i] = m;
+        if (lead)
+            m[0] = (unsigned char)(0xc0u + (unsigned)i);
         for (size_t k = 0; k < p[i]; ++k)
-            mem[i][k] = STREAM(at + k);
+            m[(size_t)lead + k] = STREAM(at + k);
         at += p[i];
-        part[i].data = mem[i];
-        part[i].size = part[i].used = p[i];
-        part[i].offset = 0;
+        part[i].data = m;
+        part[i].size = part[i].used = p[i] + (size_t)lead;
+        part[i].offset = (size_t)lead;
     }
-    ByteChunks chunks = { (size_t)np, 0, part };
+    ByteChunks chunks = { (size_t)nch, (size_t)inactive, list };
     Source real_source, source;
     if (plain_buffer)
         source_from_buffer(&real_source, &part[0]);
     else
         source_from_chunks(&real_source, &chunks);
-    unsigned char *sinkmem = mc_exact(cap);
-    memset(sinkmem, 0xee, cap);
-    ByteBuffer sinkb = { sinkmem, cap, 0, 0 };
+    /* with `prefill` the sink's buffer holds two octets already (one of them
+     * consumed): what the sink receives is what is appended behind them */
+    const size_t pre = prefill ? 2u : 0u;
+    unsigned char *sinkmem = mc_exact(pre + cap);
+    memset(sinkmem, 0xee, pre + cap);
+    for (size_t i = 0; i < pre; ++i)
+        sinkmem[i] = (unsigned char)(0xb0u + i);
+    ByteBuffer sinkb = { sinkmem, pre + cap, pre, pre ? 1u : 0u };
     Sink real_sink, sink;
     sink_to_buffer(&real_sink, &sinkb);
     const int budget = 4 * (int)(L + n + cap) + 16;
@@ -1414,12 +1456,18 @@ real_case(int cop, const size_t *p, int np, size_t n, size_t cap, bool plain_buf
     case C_DRAIN_AUX: rc = sts_drain_aux(&source, &sink, &aux); break;
     }
     mc_trans(1);
-    size_t taken = 0;
+    size_t taken = 0, foreign = 0;
     for (int i = 0; i < np; ++i)
-        taken += part[i].offset;
-    mc_log("returned %zd; %zu octets taken from the source, %zu in the sink", rc, taken, sinkb.used);
+        taken += part[i].offset - (size_t)lead;
+    for (int i = 0; i < inactive; ++i)
+        foreign += list[i].offset - 1u;
+    const bool sink_shrunk = sinkb.used < pre;
+    const size_t sinkgot = sink_shrunk ? 0 : sinkb.used - pre;
+    const unsigned char *sinkdata = sinkmem + pre;
+    mc_log("returned %zd; %zu octets taken from the source (%zu from chunks in front of the active one), %zu appended to the sink", rc,
+           taken, foreign, sinkgot);
     mc_log_hex("destination", dst, n);
-    mc_log_hex("sink", sinkmem, sinkb.used <= cap ? sinkb.used : cap);
+    mc_log_hex("sink", sinkdata, sinkgot <= cap ? sinkgot : cap);
 
     const char *outcome = "real-ok";
     if (wsrc.over || wsnk.over) {
@@ -1434,7 +1482,7 @@ real_case(int cop, const size_t *p, int np, size_t n, size_t cap, bool plain_buf
                 mc_fail("C17/in-order", "destination holds [%s], not the next %zu octets", hexs(dst, n), n);
             else if (taken != n)
                 mc_fail("C17/source-advance", "source advanced by %zu for N=%zu", taken, n);
-            outcome = np > 1 ? "real-ok-across-chunks" : "real-ok";
+            outcome = inactive ? "real-ok-behind-inactive-chunks" : np > 1 ? "real-ok-across-chunks" : "real-ok";
         } else {
             if (rc != -ENODATA)
                 mc_fail("C17/hard-error-unchanged", "source ended after %zu octets, source_get_chunk(N=%zu) returned %zd", L, n, rc);
@@ -1462,65 +1510,70 @@ real_case(int cop, const size_t *p, int np, size_t n, size_t cap, bool plain_buf
          * the source ends before the count (-ENODATA) */
         const bool may_enomem = cap < (want < L ? want : L);
         const bool may_enodata = L < want;
-        if (sinkb.used > cap || sinkb.used > taken || sinkb.used > want || !is_prefix(sinkmem, sinkb.used <= cap ? sinkb.used : cap)) {
-            mc_fail("C17/sink-prefix", "%zu octets taken from the source, sink holds %zu: [%s]", taken, sinkb.used,
-                    hexs(sinkmem, sinkb.used <= cap ? sinkb.used : cap));
+        if (sink_shrunk || sinkgot > cap || sinkgot > taken || sinkgot > want || !is_prefix(sinkdata, sinkgot <= cap ? sinkgot : cap)) {
+            mc_fail("C17/sink-prefix", "%zu octets taken from the source, sink %s %zu: [%s]", taken,
+                    sink_shrunk ? "lost octets it held before; appended" : "received", sinkgot,
+                    hexs(sinkdata, sinkgot <= cap ? sinkgot : cap));
         } else if (may_enomem || may_enodata) {
             if (!((may_enomem && rc == -ENOMEM) || (may_enodata && rc == -ENODATA)))
                 mc_fail("C17/hard-error-unchanged", "%s: source holds %zu octets, sink has room for %zu, %zu to move: returned %zd",
                         COPNAME[cop], L, cap, want, rc);
             outcome = may_enomem ? "real-sink-full" : "real-source-end";
         } else if (drain) {
-            if (sinkb.used != L || taken != L)
-                mc_fail("C17/drain-complete", "%s returned %zd with %zu of %zu octets in the sink", COPNAME[cop], rc, sinkb.used, L);
-            outcome = np > 1 ? "real-drain-across-chunks" : "real-drain";
+            if (sinkgot != L || taken != L)
+                mc_fail("C17/drain-complete", "%s returned %zd with %zu of %zu octets in the sink", COPNAME[cop], rc, sinkgot, L);
+            outcome = inactive ? "real-drain-behind-inactive-chunks" : np > 1 ? "real-drain-across-chunks" : "real-drain";
         } else {
             if (rc != (ssize_t)n)
                 mc_fail("C17/exact-count", "%s(n=%zu) returned %zd", COPNAME[cop], n, rc);
-            else if (sinkb.used != n)
-                mc_fail("C17/exact-count", "%s(n=%zu) put %zu octets into the sink", COPNAME[cop], n, sinkb.used);
+            else if (sinkgot != n)
+                mc_fail("C17/exact-count", "%s(n=%zu) put %zu octets into the sink", COPNAME[cop], n, sinkgot);
             else if (taken != n)
                 mc_fail("C17/source-advance", "%s(n=%zu) took %zu octets from the source", COPNAME[cop], n, taken);
-            outcome = np > 1 ? "real-ok-across-chunks" : "real-ok";
+            outcome = inactive ? "real-ok-behind-inactive-chunks" : np > 1 ? "real-ok-across-chunks" : "real-ok";
         }
     }
-    for (int i = 0; i < np; ++i)
+    for (int i = 0; i < nch; ++i)
         free(mem[i]);
     free(sinkmem);
     free(auxmem);
     free(dst);
-    mc_end(np > 1 || L < n || cap < n, outcome);
+    mc_end(np > 1 || L < n || cap < n || inactive > 0, outcome);
 }
 
 static void
-real_endpoints(size_t maxlen)
+real_endpoints(size_t maxlen, int maxparts)
 {
     /* ordered by the number of chunk boundaries (= deviations from "one chunk
-     * holds everything") */
-    for (int np = 1; np <= 3; ++np)
-        for (int cop = 0; cop < C__N; ++cop)
-            for (size_t L = 0; L <= maxlen; ++L)
-                for (size_t a = 0; a <= L; ++a)
-                    for (size_t b = 0; a + b <= L; ++b) {
-                        size_t p[3] = { 0, 0, 0 };
-                        if (np == 1) {
-                            if (a || b) continue;
-                            p[0] = L;
-                        } else if (np == 2) {
-                            if (b) continue;
-                            p[0] = a; p[1] = L - a;
-                        } else {
-                            p[0] = a; p[1] = b; p[2] = L - a - b;
-                        }
-                        const bool drain = (cop >= C_DRAIN_CBC);
-                        const bool one = (cop <= C_GET_ATMOST);
-                        for (size_t n = 1; n <= (drain ? 1 : maxlen); ++n)
-                            for (size_t cap = one ? maxlen : 0; cap <= maxlen; ++cap) {
-                                real_case(cop, p, np, n, cap, false);
-                                if (np == 1 && L > 0)
-                                    real_case(cop, p, np, n, cap, true);
-                            }
-                    }
+     * holds everything"): every cut of every stream <= maxlen into np parts,
+     * empty parts at every position included */
+    for (int np = 1; np <= maxparts; ++np)
+        for (int cop = 0; cop < C__N; ++cop) {
+            size_t p[REAL_MAXPARTS] = { 0 };
+            for (;;) {
+                size_t L = 0;
+                for (int i = 0; i < np; ++i)
+                    L += p[i];
+                if (L <= maxlen) {
+                    const bool drain = (cop >= C_DRAIN_CBC);
+                    const bool one = (cop <= C_GET_ATMOST);
+                    for (int inactive = 0; inactive <= REAL_MAXINACTIVE; ++inactive)
+                        for (int lead = 0; lead < 2; ++lead)
+                            for (size_t n = 1; n <= (drain ? 1 : maxlen); ++n)
+                                for (size_t cap = one ? maxlen : 0; cap <= maxlen; ++cap)
+                                    for (int prefill = 0; prefill < (one ? 1 : 2); ++prefill) {
+                                        real_case(cop, p, np, n, cap, false, inactive, lead, prefill);
+                                        if (np == 1 && L > 0 && inactive == 0)
+                                            real_case(cop, p, np, n, cap, true, 0, lead, prefill);
+                                    }
+                }
+                int i = 0;
+                while (i < np && ++p[i] > maxlen)
+                    p[i++] = 0;
+                if (i == np)
+                    break;
+            }
+        }
 
     /* trivial.c: /dev/zero, /dev/null, the empty source */
     for (size_t n = 1; n <= maxlen; ++n) {
@@ -1711,7 +1764,7 @@ main(int argc, char **argv)
     }
     long_family(mc_thorough() ? 4 : 3, mc_thorough() ? 3 : 2, emit);
     if (SUBJECT == &IMPL_UFW)
-        real_endpoints(mc_thorough() ? 6 : 4);
+        real_endpoints(mc_thorough() ? 6 : 4, mc_thorough() ? 5 : 4);
 
     char bound[700];
     snprintf(bound, sizeof bound,
